@@ -225,9 +225,11 @@ func actionCodeReplace(vnode *parser.RootVistor,
 	for _, rightPart := range oneRule.RighPart {
 		rightPartString += parser.RemoveTempName(rightPart.Name) + " "
 	}
+	// the rule and its action are quoted inside a block comment: a "*/" in the
+	// action (a comment of its own) must not end that comment
 	strComment = fmt.Sprintf(strComment,
-		fmt.Sprintf("%s -> %s\n %s\n",
-			leftPartString, rightPartString, oneRule.ActionCode))
+		strings.ReplaceAll(fmt.Sprintf("%s -> %s\n %s\n",
+			leftPartString, rightPartString, oneRule.ActionCode), "*/", "* /"))
 
 	str := oneRule.ActionCode
 	str = strings.ReplaceAll(str, "$$",
